@@ -405,6 +405,9 @@ class Interp(object):
                 for x_ in ast.walk(s.test):
                     if isinstance(x_, ast.Name) and isinstance(env.get(x_.id), (Arr, Scal)):
                         deps_ = deps_ | env[x_.id].D | env[x_.id].Pg
+                    elif isinstance(x_, ast.Subscript) and isinstance(x_.value, ast.Name) and isinstance(env.get(x_.value.id), Lst) and env[x_.value.id].what == "nums" \
+                            and isinstance(env[x_.value.id].elem, Scal):
+                        deps_ = deps_ | env[x_.value.id].elem.D  # an element of a numeric list argument (a weight, a threshold)
                 if deps_:
                     self.res.cond_deps[id(s.test)] = self.res.cond_deps.get(id(s.test), E) | deps_
             branches = []
@@ -844,7 +847,7 @@ class Interp(object):
             if it.what in ("arrs", "masks"):
                 return self.part_elem(it)
             if it.what == "nums":
-                return Scal(sym="elem(%s)" % ",".join(it.srcs), rng=it.elem.rng if isinstance(it.elem, Scal) else (None, None))
+                return Scal(sym="elem(%s)" % ",".join(it.srcs), rng=it.elem.rng if isinstance(it.elem, Scal) else (None, None), D=it.elem.D if isinstance(it.elem, Scal) else E, Pg=it.elem.Pg if isinstance(it.elem, Scal) else E)
             if it.what == "pairs":
                 return Lst("mixed", items=(Scal(sym="raw"), Scal(sym="normal")))
             if it.what == "zip":
@@ -1534,6 +1537,16 @@ class ArrayInterp(Interp):
                 return base.d[k]
             self.finding("kwkey", e, "kwargs[%r] is read but `%s` is not a declared input of %s" % (k, k, self.decl.cls.name), fr)
             return Other("opaque")
+        if isinstance(base, Arr) and base.shape == "stackedlast":
+            # the layer axis is the LAST one (numpy.moveaxis(stack, 0, -1)): `x[..., i]` is what `stack[i]` is, for every rank
+            sl = e.slice
+            if isinstance(sl, ast.Tuple) and len(sl.elts) == 2 and isinstance(sl.elts[0], ast.Constant) and sl.elts[0].value is Ellipsis:
+                got = self.sub_arr(replace(base, shape="stacked"), self.ev(sl.elts[1], fr), e, fr)
+                if isinstance(got, Arr) and got.shape == "stacked":
+                    got = replace(got, shape="stackedlast")
+                return got
+            self.finding("equivariance", e, "`%s` indexes the leading DATA axis of a stack whose layer axis was moved last" % _src(e), fr)
+            return replace(base, shape="unknown")
         idx = self.ev(e.slice, fr)
         if isinstance(idx, Other) and idx.tag == "switch" and isinstance(base, (Lst, Arr)):
             out = None
@@ -2290,6 +2303,10 @@ class ArrayInterp(Interp):
             self.write_site(base, e, "in-place sort of %s" % _src(basenode), fr)
             ax = K.get("axis", A[0] if A else None)
             ax0 = isinstance(ax, Scal) and ax.const == 0
+            if base.shape == "stackedlast" and (ax is None or isinstance(ax, Scal) and ax.const == -1):
+                # the layer axis is the last one (and the default axis of sort): every cell's layers put in order, no cell moves
+                self.rebind(basenode, base, replace(base, sorted0=True), fr)
+                return Other("none")
             if base.shape == "rankdep":
                 self.finding("shape", e, "layer-axis sort on a rank-dependent stack (numpy.vstack, A10): for rank >= 2 axis 0 mixes cells of different positions", fr)
             elif base.shape == "flat" and not any(is_input_token(t_) for t_ in base.alias | base.dataof):
@@ -2341,6 +2358,8 @@ class ArrayInterp(Interp):
         self.unsupported("array method .%s()" % meth, e, fr)
 
     def axis_reduce(self, base, ax, e, fr, what):
+        if base.shape == "stackedlast" and isinstance(ax, Scal) and ax.const == -1:
+            base, ax = replace(base, shape="stacked"), Scal(dt=I_, const=0)  # the layer axis, wherever it sits
         ax0 = isinstance(ax, Scal) and ax.const == 0
         if not (base.isbool and base.kind == "plain" and base.maskof):
             self.res.layer_reduces.append((e, base.sel, what, self.fkey(fr)))  # (a reduction of the masks combines no data layers)
@@ -2471,6 +2490,11 @@ class ArrayInterp(Interp):
             if isinstance(a0, Lst) and a0.what == "arrs":
                 el = self.part_elem(a0)
                 return replace(el, kind="plain" if qn != "numpy.asanyarray" else el.kind, M=E, Pc=el.Pc | (el.D if el.kind == "masked" else E), shape="stacked", alias=S())
+            if isinstance(a0, Lst) and a0.what == "masks":
+                # the masks of the inputs, one layer each: a boolean stack whose layers differ (each is its own input's mask)
+                el = self.part_elem(a0)
+                if isinstance(el, Arr) and el.isbool and el.kind == "plain" and el.maskof:
+                    return replace(el, shape="stacked", alias=S(), layermask=len(el.M) > 1, dataof=E)
             if isinstance(a0, Lst) and a0.what == "nums" and a0.sliced is None:
                 # one number per input (the weights): a vector along the layer axis
                 el = a0.elem if isinstance(a0.elem, Scal) else Scal()
@@ -2739,7 +2763,8 @@ class ArrayInterp(Interp):
                 ax = K.get("axis", A[1] if len(A) > 1 else Scal(dt=I_, const=0))
                 if isinstance(ax, Other) and ax.tag == "none":
                     return self.reduce_scalar(a0, qn.split(".")[-2], e, fr)
-                return self.axis_reduce(a0, ax, e, fr, {"minimum": "min", "maximum": "max", "add": "sum", "multiply": "prod", "fmin": "min", "fmax": "max"}.get(qn.split(".")[-2], qn.split(".")[-2]))
+                return self.axis_reduce(a0, ax, e, fr, {"minimum": "min", "maximum": "max", "add": "sum", "multiply": "prod", "fmin": "min", "fmax": "max", "logical_or": "any", "bitwise_or": "any",
+                                                        "logical_and": "all", "bitwise_and": "all"}.get(qn.split(".")[-2], qn.split(".")[-2]))
             return Scal()
         if qn in ("numpy.savetxt", "numpy.save", "numpy.savez"):
             self.res.effects.append(("file-write", e.lineno, _src(e)[:80], self.fkey(fr)))
@@ -2798,6 +2823,10 @@ class ArrayInterp(Interp):
                     if isinstance(ones, (ast.List, ast.Tuple)) and len(ones.elts) == 1 and isinstance(ones.elts[0], ast.Constant) and ones.elts[0].value == 1 \
                             and isinstance(ones, type(rp.left)) and _src(cnt) in ("%s.ndim" % x_src, "len(%s.shape)" % x_src, "numpy.ndim(%s)" % x_src):
                         return replace(a0, alias=S(), shape="stacked", maskof=E, dataof=E, maskalias=E, layermask=False)
+            if isinstance(a0, Arr) and qn == "numpy.moveaxis" and len(A) == 3 and not K and a0.shape == "stacked" \
+                    and isinstance(A[1], Scal) and A[1].const == 0 and isinstance(A[2], Scal) and A[2].const == -1:
+                # (layers, d1..dr) -> (d1..dr, layers): the cell axes keep their order for every rank (swapaxes would not); a view
+                return replace(a0, shape="stackedlast", alias=a0.alias | S())
             if isinstance(a0, Arr):
                 ax = K.get("axis", A[1] if len(A) > 1 else None)
                 if qn in ("numpy.sort", "numpy.ma.sort") and a0.shape == "stacked" and isinstance(ax, Scal) and ax.const == 0:
